@@ -28,16 +28,18 @@ CRASH_SIGNALS = (-4, -6, -7, -8, -11, 132, 134, 135, 136, 139)
 # wide: message classes by varint width of the 4-byte groups (vh-demo: widx = (width - 1) * 3 + variant + 1; variant 0 one
 # constant value at the largest length the writer accepts, 1 pseudo-random values at the largest accepted length, 2 1000 groups).
 # MsgIds 1..6: short game messages; 100000 + n: a broadcast of n bytes (120000: 20 000 bytes = 5 000 groups of 5 packed bytes; 140000: 40 000 bytes).
+# Modes (long recordings): 10 * mode + src -- mode 0 dedicated write_* functions, 1 write_chunk, 2 alternating; src 0 bytes in one piece, 1 one byte per
+# read / write call, 2 half, 3 all but the last byte, 4 BufReader / BufWriter(16), 5 pseudo-random counts, 6 BufReader / BufWriter(1).
 # HiGaps are indices into MC_DemoHi!Gap (1: 0, 2: 1, 3: 125, 4: 250, 5: 251, 6: -3, 7: 2147483000).
 
 LO = {
     "quick": dict(MaxChunks=3, Headers=[1, 2, 3, 4], StartTicks=[1, 2], Gaps=[1, 31, 32, 250, 251],
                   sizes=[29, 30, 255, 256], msg=[(0, 0), (29, 1), (30, 2), (255, 3), (256, 0), (30, 0), (29, 3), (256, 1)],
-                  wide=[1, 4, 7, 10, 13, 14]),
+                  wide=[1, 4, 7, 10, 13, 14], Modes=[0, 11, 23, 4, 15], ModeChunks=2),
     "thorough": dict(MaxChunks=4, Headers=[1, 2, 3, 4], StartTicks=[1, 3, 4, 5], Gaps=[1, 31, 32, 250, 251],
                      sizes=[29, 30, 255, 256, 65535],
                      msg=[(0, 0), (29, 0), (29, 3), (30, 1), (30, 2), (255, 2), (255, 3), (256, 0), (256, 1), (65535, 1)],
-                     wide=list(range(1, 16))),
+                     wide=list(range(1, 16)), Modes=[0, 11, 12, 23, 4, 25, 6], ModeChunks=3),
 }
 HI = {
     "quick": dict(MaxCalls=4, HiGaps=[1, 2, 3, 5], WorldIds=[1, 2, 5, 6, 8], MsgIds=[1, 3, 120000]),
@@ -84,8 +86,9 @@ def _classes(ctx, bins, tier):
 def _write_cfgs(ctx, tier, snap, msg, wide):
     lo, hi = LO[tier], HI[tier]
     lo_c = ("SPECIFICATION Spec\nCONSTANTS\n  MaxChunks = %d\n  Headers = %s\n  StartTicks = %s\n  Gaps = %s\n"
-            "  SnapSizes = %s\n  MsgCodes = %s\n  WideCodes = %s\nCHECK_DEADLOCK FALSE\n" % (
-                lo["MaxChunks"], _set(lo["Headers"]), _set(lo["StartTicks"]), _set(lo["Gaps"]), _set(snap), _set(msg), _set(wide)))
+            "  SnapSizes = %s\n  MsgCodes = %s\n  WideCodes = %s\n  Modes = %s\n  ModeChunks = %d\nCHECK_DEADLOCK FALSE\n" % (
+                lo["MaxChunks"], _set(lo["Headers"]), _set(lo["StartTicks"]), _set(lo["Gaps"]), _set(snap), _set(msg), _set(wide),
+                _set(lo["Modes"]), lo["ModeChunks"]))
     hi_c = ("SPECIFICATION Spec\nCONSTANTS\n  MaxCalls = %d\n  HiGaps = %s\n  WorldIds = %s\n  MsgIds = %s\nCHECK_DEADLOCK FALSE\n" % (
         hi["MaxCalls"], _set(hi["HiGaps"]), _set(hi["WorldIds"]), _set(hi["MsgIds"])))
     paths = {}
